@@ -44,7 +44,7 @@ Inductive nop :=
 | Heartbeat
 | AddAllow (k : N) (parses : bool)      (* [parses]: every entry of the request parses *)
 | RemoveAllow (k : N) (parses : bool)
-| SetAllow (k : N) (parses : bool)
+| SetAllow (k : N) (parses : bool)        (* replace the list by [address k]; k = 3: by the empty list *)
 | AddInvoice
 | ChannelRequest (d : N)                (* a channel request that the channel refuses, or a setup_channel that policy refuses *)
 | NRestart.
